@@ -12,7 +12,10 @@ own invariant; the as-built machine keeps all the others.
 
 Binding (code -> spec, Transfer_Trace.tla): repositories written by REAL scheduler runs (values,
 lists of Files, job / value / execution tags, tag edits through record_tags(update) / update_tags /
-delete_tags, executions cut mid-way, a transfer performed while a workflow is still running) are
+delete_tags, executions cut mid-way, a transfer performed while a workflow is still running, later
+executions answered from the cache -- a whole subtree by ultimate reduction of a check_valid=shallow
+task, or every job of a repeated run -- and transferred ALONE, so that call nodes without a job of
+their own are reachable only through call edges and their tasks only through CallNode -> Task) are
 moved with the functions the CLI uses -- RedunClient._sync_records (push / pull), the `redun push`
 / `redun export` / `redun import` commands themselves, and the export/import JSON-lines path -- in
 both directions, once and repeated.  Normalised raw-sqlite dumps of source, destination before /
@@ -54,7 +57,8 @@ META = {
             "or found records already present",
 }
 
-ALL_DEVS = ["ChildOrderUnspecified", "StaleJobRowKept", "SubtreeRowsNotTransferred"]
+# as built today: ChildOrderUnspecified was repaired in /repo by ff56d8a, EmptySubtreeAccepted by a1120b6
+ALL_DEVS = ["StaleJobRowKept", "SubtreeRowsNotTransferred"]
 KEY_ORDER = "child-call-order-lost"
 KEY_STALE = "resync-keeps-running-job-row"
 KEY_SUBTREE = "import-drops-subtree-rows"
@@ -357,12 +361,32 @@ def traced_transfer(ctx: Ctx, src: Repo, dst: Repo, root_idx: Optional[list[int]
                      for q, a, b, c in zip(qs, l_src, l_d0, l_d1)]}
     meta = {"src": src.name, "dst": dst.name, "channel": channel, "root_idx": root_idx,
             "src_plan": copy.deepcopy(src.plan), "dst_plan": copy.deepcopy(dst.plan), "n1": n1, "n2": n2,
-            "rows": {"src": len(s), "d0": len(d0), "d1": len(d1)}}
+            "rows": {"src": len(s), "d0": len(d0), "d1": len(d1)},
+            "jobless_call_nodes": jobless_call_nodes(s, t["roots"])}
     traces.append(t)
     metas.append(meta)
     src.plan.append(["sent", dst.name, root_idx, channel])
     dst.plan.append(["received", src.name, root_idx, channel])
     return t
+
+
+def jobless_call_nodes(src_rows: list, roots: list[str]) -> int:
+    """Call nodes reachable from the root executions' jobs through call edges that have no job in those
+    executions (a subtree answered by ultimate reduction): only the CallNode -> Task / Value edges lead
+    to their tasks and values."""
+    roots_s = set(roots)
+    job_calls = {r[6] for r in src_rows if r[0] == "Job" and r[8] in roots_s and r[6] != "~"}
+    kids: dict = {}
+    for r in src_rows:
+        if r[0] == "CallEdge":
+            kids.setdefault(r[1], set()).add(r[2])
+    seen, todo = set(job_calls), list(job_calls)
+    while todo:
+        for c in kids.get(todo.pop(), ()):
+            if c not in seen:
+                seen.add(c)
+                todo.append(c)
+    return len(seen - job_calls)
 
 
 def validate(ctx: Ctx, traces: list, what: str) -> dict[int, dict]:
@@ -457,17 +481,24 @@ def scenario_random(ctx: Ctx, k: int, traces: list, metas: list, depth: int, cha
 
     def some_runs(r: Repo, n: int):
         for _ in range(n):
-            spec = dbgen.gen_spec(rng, rng.randint(1, depth), p_boom=0.12, files=True, tags=True)
-            r.run(spec, seed=rng.randrange(10 ** 6), abort=rng.choice([None, None, None, 4]),
+            earlier = [p[1] for p in r.plan if p[0] == "run" and p[3] is None]
+            if earlier and rng.random() < 0.3:
+                spec, cut = rng.choice(earlier), None      # the same tree again: every job is a cache hit
+            else:
+                spec = dbgen.gen_spec(rng, rng.randint(1, depth), p_boom=0.12, files=True, tags=True, deep=True)
+                cut = rng.choice([None, None, None, 4])
+            r.run(spec, seed=rng.randrange(10 ** 6), abort=cut,
                   exec_tags=[("proj", rng.choice(["p", "q"]))] if rng.random() < 0.5 else ())
         for _ in range(rng.randint(0, 3)):
             r.tag_edit(rng)
 
-    some_runs(a, 2)
+    some_runs(a, 3)
     if rng.random() < 0.5:
         some_runs(b, 1)
     ch = rng.choice(channels)
-    roots = rng.choice([None, [0], [1], [0, 1]])
+    # any subset of the executions; "only the latest" twice as likely (it is the one that may have been
+    # answered from the cache for whole subtrees)
+    roots = rng.choice([None, [0], [1], [2], [2], [0, 1], [1, 2]])
     traced_transfer(ctx, a, b, roots, ch, traces, metas)
     # edits on either side, then the other direction
     for _ in range(rng.randint(0, 2)):
@@ -481,6 +512,37 @@ def scenario_random(ctx: Ctx, k: int, traces: list, metas: list, depth: int, cha
     if rng.random() < 0.5:
         a.tag_edit(rng)
         traced_transfer(ctx, a, b, None, rng.choice(channels), traces, metas, lookups=False)
+
+
+def scenario_cached_subtree(ctx: Ctx, traces: list, metas: list) -> None:
+    """Only a LATER execution is transferred, and that execution was answered from the cache:
+    execution 0 computes deep(1) -> dleaf(1) -> dleaf2(1); execution 1 calls deep(1) again from another
+    tree (deep is check_valid = shallow: a cached job for deep, NO job for dleaf / dleaf2, their call
+    nodes hang off deep's call node by call edges only); execution 2 repeats execution 1 (every job a
+    cache hit).  Each of the later executions alone goes to an empty repository."""
+    from redun.backends.base import TagEntity
+
+    from .. import dbgen, simloop
+
+    a = Repo(ctx, "acs")
+    a.run(["add", ["deep", 1], ["lit", 2]], exec_tags=[("proj", "first")])
+    a.run(["pack", ["deep", 1], ["inc", ["lit", 5]]])
+    a.run(["pack", ["deep", 1], ["inc", ["lit", 5]]])
+    be = a.backend()
+    try:   # a tag on a task that only the cached subtree uses
+        be.record_tags(TagEntity.Task, dbgen.dleaf.hash, [("doc", "leaf of the shallow subtree")])
+    finally:
+        simloop.close_backend(be)
+    a.plan.append(["tag", "add", "Task", ["doc", "leaf of the shallow subtree"]])
+    n = 0
+    for k, (roots, channel) in enumerate([([1], "sync"), ([2], "cli-push"), ([1, 2], "jsonl"), ([2], "cli-export-import")]):
+        b = Repo(ctx, f"bcs{k}")
+        a.add_remote(b.name, b)
+        traced_transfer(ctx, a, b, roots, channel, traces, metas, lookups=(k == 0))
+        n += metas[-1]["jobless_call_nodes"] if metas and metas[-1]["dst"] == b.name else 0
+    ctx.require(n > 0 or bool(ctx.violations),
+                "the cached-subtree scenario produced no call node without a job (deep was not served by "
+                "ultimate reduction)")
 
 
 def scenario_midrun(ctx: Ctx, traces: list, metas: list, cut_at: int = 6) -> None:
@@ -541,24 +603,35 @@ def mc_cfg(devs: list[str], me: int, mt: int, mx: int, invs: list[str]) -> str:
 
 CONTRACT = ["RowsFaithful", "JobsFaithful", "ChildOrderFaithful", "ChildSetsFaithful", "TagsFaithful",
             "NothingLost", "TwiceAddsNothing", "CacheSafe"]
-DEV_INV = {"ChildOrderUnspecified": "ChildOrderFaithful", "StaleJobRowKept": "JobsFaithful",
-           "SubtreeRowsNotTransferred": "CacheSafe"}
+# named deviation(s) -> the one invariant they break (model-level controls; the first and the last pair
+# describe behaviour that has since been repaired in /repo and stay as regression controls)
+DEV_INV = [(["ChildOrderUnspecified"], "ChildOrderFaithful"), (["StaleJobRowKept"], "JobsFaithful"),
+           (["SubtreeRowsNotTransferred", "EmptySubtreeAccepted"], "CacheSafe")]
+ASBUILT_BROKEN = {"JobsFaithful"}
 
 
 def model_check(ctx: Ctx) -> None:
     me, mt, mx = ctx.pick((1, 1, 2), (2, 2, 2))
     jobs = []
-    # (a) repaired world: the whole contract; (b) as built: everything but the three deviation
-    # invariants; (c) each deviation alone breaks exactly its own invariant
+    # (a) repaired world: the whole contract; (b) as built: everything but the invariant the open
+    # deviation breaks; (c) each deviation breaks exactly its own invariant; (d) two executions and one
+    # transfer of any subset (the second execution may be answered from the cache for a whole subtree:
+    # a job for the shallow task g, none for h) -- in every tier; (e) control: in that world the
+    # CallNode -> Task ownership edge is NOT redundant (dropping it changes some closure)
     jobs.append(("ideal", mc_cfg([], me, mt, mx, ["TypeOK", "TagLeafInv", "IdealAgrees"] + CONTRACT), None))
-    keep = [i for i in CONTRACT if i not in DEV_INV.values()]
+    keep = [i for i in CONTRACT if i not in ASBUILT_BROKEN]
     jobs.append(("asbuilt", mc_cfg(ALL_DEVS, me, 1 if not ctx.quick else mt, mx,
                                    ["TypeOK", "TagLeafInv", "AsBuiltAgrees"] + keep), None))
-    if not ctx.quick:  # three tag edits (add / update / delete chains) with one execution
+    if ctx.quick:
+        jobs.append(("ideal_subset", mc_cfg([], 2, 0, 1, ["TypeOK", "IdealAgrees"] + CONTRACT), None))
+    else:  # three tag edits (add / update / delete chains) with one execution
         jobs.append(("ideal_tags", mc_cfg([], 1, 3, 2, ["TypeOK", "TagLeafInv", "IdealAgrees"] + CONTRACT), None))
         jobs.append(("asbuilt_tags", mc_cfg(ALL_DEVS, 1, 3, 2, ["TypeOK", "TagLeafInv", "AsBuiltAgrees"] + keep), None))
-    for dev, inv in DEV_INV.items():
-        jobs.append((dev, mc_cfg([dev], 1, 0, 2, [inv]), inv))
+    for devs, inv in DEV_INV:
+        if ctx.quick and devs[0] != "StaleJobRowKept":
+            continue   # the controls of deviations already repaired in /repo run in the thorough tier
+        jobs.append(("dev_" + devs[0], mc_cfg(devs, 1, 0, 2, [inv]), inv))
+    jobs.append(("ctl_task_edge", mc_cfg([], 2, 0, 1, ["TaskEdgeRedundant"]), "TaskEdgeRedundant"))
 
     def inv_of(name):
         return next(j[2] for j in jobs if j[0] == name)
@@ -598,6 +671,7 @@ def run(ctx: Ctx) -> None:
         traces: list = []
         metas: list = []
         scenario_curated(ctx, traces, metas)
+        scenario_cached_subtree(ctx, traces, metas)
         scenario_midrun(ctx, traces, metas)
         nscen = ctx.pick(4, 40)
         channels = ["sync", "sync", "jsonl"] + ([] if ctx.quick else ["cli-push", "cli-export-import"])
@@ -640,6 +714,8 @@ def run(ctx: Ctx) -> None:
         ctx.sample({"transfer": "sync amid->bmid, first while the workflow runs, again after it ended",
                     "verdict": verdicts[mid]})
     stats.pop("_keys", None)
+    stats["transfers_with_jobless_call_nodes"] = sum(1 for m in metas if m["jobless_call_nodes"])
+    stats["subset_transfers"] = sum(1 for m in metas if m["root_idx"] is not None)
     ctx.note("stats", stats)
 
 
